@@ -3,6 +3,7 @@ package main
 import (
 	"bytes"
 	"fmt"
+	"strconv"
 	"strings"
 
 	"github.com/moov-io/ach"
@@ -25,11 +26,14 @@ type augSpec struct {
 	Addenda    bool   `json:"addenda,omitempty"`
 	MaxBatches int    `json:"maxBatches,omitempty"`
 	MaxEntries int    `json:"maxEntries,omitempty"`
-	// per source batch (Batches, then IATBatches): 0 keep, 1 duplicate, 2 split in two,
+	// per source batch (Batches, then IATBatches): 5 (short trace numbers only) two single-entry batches "9" / "10", 0 keep, 1 duplicate, 2 split in two,
 	// 3 split in three, 4 split in two and duplicate the first part
 	Plan []int `json:"plan"`
 	// non-zero: the source file is made valid only under an option set stored on it (gen.NeedsOpts)
 	NeedsOpts uint64 `json:"needsOpts,omitempty"`
+	// with NeedsOpts: the variant to use ("" = whatever gen.NeedsOpts draws); the trace-number variants matter
+	// most to Flatten, which orders and compares trace numbers
+	OptVariant string `json:"optVariant,omitempty"`
 	// the file is written, the first 8 digits of every entry's trace number are replaced in the TEXT and the
 	// text is read back under CustomTraceNumbers: a file with foreign trace numbers that no Create has touched
 	// (its batches are then used as they are: plan ignored)
@@ -54,7 +58,11 @@ func (a augSpec) source() (f *ach.File, err error) {
 		f = gen.File(r, a.opts())
 	}
 	if a.NeedsOpts != 0 && f != nil {
-		if g, _ := gen.NeedsOpts(rng.New(a.NeedsOpts), f); g != nil {
+		if v := gen.OptVariantByName(a.OptVariant); v != nil {
+			if g := gen.NeedsOptsVariant(rng.New(a.NeedsOpts), f, v); g != nil {
+				f = g
+			}
+		} else if g, _ := gen.NeedsOpts(rng.New(a.NeedsOpts), f); g != nil {
 			f = g
 		}
 	}
@@ -180,6 +188,36 @@ func buildAug(a augSpec) (*ach.File, error) {
 			}
 		case 4:
 			parts = []ach.Batcher{stdPart(c[0].Batches[i], 0, 2), stdPart(c[1].Batches[i], 1, 2), stdPart(c[2].Batches[i], 0, 2)}
+		case 5:
+			// short trace numbers only: two single-entry batches with the same header whose trace numbers have
+			// different lengths ("9" and "10"): each is valid alone, their raw order and their padded order differ
+			if a.OptVariant == "short-trace-numbers" && len(f.Batches[i].GetEntries()) >= 2 {
+				for j, tr := range []string{"9", "10"} {
+					pb := stdPart(c[j].Batches[i], j, len(f.Batches[i].GetEntries()))
+					if pb == nil || len(pb.GetEntries()) != 1 {
+						parts = nil
+						break
+					}
+					e := pb.GetEntries()[0]
+					if _, err := strconv.Atoi(e.TraceNumber); err != nil || len(e.TraceNumber) > 6 {
+						parts = nil // the variant did not apply to this source
+						break
+					}
+					e.TraceNumber = tr
+					n, _ := strconv.Atoi(tr)
+					for _, ad := range e.Addenda05 {
+						ad.EntryDetailSequenceNumber = n
+					}
+					if e.Addenda02 != nil {
+						e.Addenda02.TraceNumber = tr
+					}
+					if pb.Create() != nil {
+						parts = nil
+						break
+					}
+					parts = append(parts, pb)
+				}
+			}
 		}
 		n := 0
 		for _, b := range parts {
@@ -241,6 +279,21 @@ func genAug(r *rng.R) fileSpec {
 	}
 	if r.Chance(1, 4) {
 		a.NeedsOpts = r.U64() | 1
+		if r.Chance(1, 2) {
+			a.OptVariant = rng.Pick(r, []string{"short-trace-numbers", "short-trace-numbers", "custom-trace-numbers", "bypass-origin-traces"})
+			if a.OptVariant == "short-trace-numbers" {
+				// the variant applies to standard forward batches
+				a.SEC, a.IAT, a.Returns, a.NOC = rng.Pick(r, []string{"PPD", "CCD", "WEB", "CTX"}), false, false, false
+				if a.MaxEntries < 3 {
+					a.MaxEntries = 4
+				}
+				for i := range a.Plan {
+					if r.Chance(1, 2) {
+						a.Plan[i] = 5
+					}
+				}
+			}
+		}
 	}
 	if a.NeedsOpts == 0 && r.Chance(1, 6) {
 		a.TextTraces = true
